@@ -416,12 +416,9 @@ func (d *DirectoryOutputHandler) Load(
 	var waitGroup sync.WaitGroup
 	// Every file is downloaded by its own goroutine which may report one error.
 	// The channel is only drained after all of them have finished, so it must
-	// have room for one error per file.
-	fileCount := len(tree.Root.GetFiles())
-	for _, child := range tree.Children {
-		fileCount += len(child.GetFiles())
-	}
-	errChan := make(chan error, fileCount)
+	// have room for one error per downloaded file. Identical sub-directories are
+	// stored once in tree.Children but restored at every path they occur at.
+	errChan := make(chan error, countTreeFiles(tree.Root, childrenMap))
 	// Recursively load the directory structure
 	if err := d.loadDirectoryRecursive(ctx, dirPath, tree.Root, childrenMap, progress, &waitGroup, errChan); err != nil {
 		return fmt.Errorf("failed to load directory structure: %w", err)
@@ -441,6 +438,18 @@ func (d *DirectoryOutputHandler) Load(
 	}
 
 	return nil
+}
+
+// countTreeFiles returns the number of files that restoring dir downloads; a
+// sub-directory that occurs at several paths is counted once per path.
+func countTreeFiles(dir *gen.Directory, childrenMap map[string]*gen.Directory) int {
+	count := len(dir.GetFiles())
+	for _, dirNode := range dir.GetDirectories() {
+		if child, ok := childrenMap[dirNode.GetDigest().GetHash()]; ok {
+			count += countTreeFiles(child, childrenMap)
+		}
+	}
+	return count
 }
 
 // loadDirectoryRecursive recursively reconstructs a directory from the Directory message
